@@ -13,7 +13,10 @@ engine with) then really ignores case:
 * pattern side — the case of a literal, and of the endpoints of a class range, may be changed
   without changing any result, also inside negated classes and subtractions
   (`pred_one_flip_pattern`, `pred_notone_flip_pattern`, `cls_range_flip_pattern`,
-  `m_pattern_flip_invariant`, `find_pattern_flip_invariant`).
+  `m_pattern_flip_invariant`, `find_pattern_flip_invariant`); the last section defines the re-cased
+  pattern `Spec.recase e ch p` for an arbitrary choice `ch` of letters and proves, with no `PatTestEq`
+  hypothesis, `recase_patTestEq`, `m_recase_invariant`, `find_recase_invariant`,
+  `find_recase_and_flip` under the decidable range condition `RecaseOK`.
 
 The only facts about the oracle tables that are used are collected in `Spec.FoldOK`: the partner
 relation is an involution, `\b`'s word test agrees on partners, `'\n'` has no partner.  Closure of
@@ -232,12 +235,24 @@ example : rangeCiEq (env []) (97, 99) (65, 67) = true ∧ rangeCiEq (env []) (97
 /-- **Literals and single class members may always be re-cased**: the range `(c, c)` with both
     endpoints re-cased by the same bit passes the range check, whatever the tables (`FoldOK`). -/
 theorem member_recase_ok (e : Env) (hf : FoldOK e) (b : Bool) (c : Nat) :
-    rangeOK e (c, c) (recaseRune e b c, recaseRune e b c) = true := by
-  unfold rangeOK
-  rw [rangeCiEq_single hf (recaseRune_eqCi e b c)]
-  exact Bool.or_true _
+    rangeOK e (c, c) (recaseRune e b c, recaseRune e b c) = true :=
+  rangeOK_member hf b c
 
 example : recaseRune (RecaseDemo.env []) true 98 = 66 ∧ recaseRune (RecaseDemo.env []) true 95 = 95 := ⟨by decide, by decide⟩
+
+/-- **Patterns without proper ranges need no table condition**: when every class range of `p` is a
+    single member `(c, c)` (`Pat.onlyMembers`) and the choice re-cases the two endpoints of a range
+    together (`Choice.Paired`), `RecaseOK` holds by `FoldOK` alone — so for literals, negated literals
+    and classes of single members (negated, subtracted) every such re-casing preserves all results. -/
+theorem recaseOK_of_members (e : Env) (hf : FoldOK e) (ch : Choice) (p : Pat) (hch : ch.Paired)
+    (hp : p.onlyMembers = true) : RecaseOK e ch p :=
+  recaseOK_members hf p hch hp
+
+/-- `(?i)a[^bc-[c]]` with all letters re-cased -/
+example : RecaseDemo.all.Paired ∧
+    (Pat.seq (.chr (.one 97 true)) (.chr (.set (.diff (.base true [(98, 98), (99, 99)] []) (.base false [(99, 99)] [])) true))).onlyMembers = true ∧
+    RecaseDemo.pat.onlyMembers = false :=
+  ⟨fun _ _ => rfl, rfl, rfl⟩
 
 /-- **A range re-cased as a whole, upper to lower** (`[A-Z]` ↦ `[a-z]`): when every rune `x` of
     `lo … hi` has the case partner `x + d`, re-casing both endpoints gives `lo+d … hi+d` and passes. -/
@@ -333,6 +348,22 @@ example : SameUpToCase (env tNeg) (env tNeg).text tNeg' ∧ AllCi negPat ∧ All
     find (env tNeg) negPat false 0 = some { pos := 2, caps := [(0, 0, 2)] } :=
   ⟨.cons (by decide) (.cons (by decide) (.cons (by decide) (.cons (by decide) .nil))), by decide, by decide,
    by decide, by decide⟩
+
+/-- **`recase` covers every re-casing.**  `Recased e p p'` (Lemmas/Recase.lean) is the choice-free
+    description: `p'` has the shape of `p` and every letter of a case-insensitive test (literal,
+    negated literal, each endpoint of each class range, in negated classes and subtractions too) is,
+    each occurrence on its own, the original rune or its simple case partner.  These are exactly
+    the patterns `recase e ch p`, so the theorems above, quantified over all `ch`, speak about all
+    re-casings of the pattern. -/
+theorem recased_iff_recase (e : Env) (p p' : Pat) : Recased e p p' ↔ ∃ ch : Choice, p' = recase e ch p :=
+  recased_iff_recase' e p p'
+
+open RegexVerif.Spec.RecaseDemo in
+/-- both the all-upper-case spelling and the mixed one are re-casings of `(?i)[a-c-[b]]x`; only the
+    first passes `RecaseOK` -/
+example : Recased (env []) pat patUpper ∧ Recased (env []) pat patMixed ∧ ¬ Recased (env []) pat negPat :=
+  ⟨(recased_iff_recase _ _ _).mpr ⟨all, rfl⟩, (recased_iff_recase _ _ _).mpr ⟨loOnly, rfl⟩,
+   fun h => by cases h⟩
 
 /-! ### end of the re-casing section -/
 
